@@ -33,12 +33,14 @@ func faultKinds(thorough bool) []faultKind {
 	ks := []faultKind{
 		{Name: "status:enomem", F: fakemc.Fault{Kind: "status", Status: fakemc.StNoMem}, Class: "status"},
 		{Name: "status:busy", F: fakemc.Fault{Kind: "status", Status: fakemc.StBusy}, Class: "status"},
+		// "too large": the one refusal a tier with a smaller item limit gives in normal operation
+		{Name: "status:toobig", F: fakemc.Fault{Kind: "status", Status: fakemc.StTooBig}, Class: "status"},
 		{Name: "close_before", F: fakemc.Fault{Kind: "close_before"}, Class: "close_before"},
 		{Name: "close_after", F: fakemc.Fault{Kind: "close_after"}, Class: "close_after"},
 		{Name: "close_mid:12", F: fakemc.Fault{Kind: "close_mid", Cut: 12}, Class: "close_mid"},
 	}
 	if thorough {
-		for _, st := range []uint16{fakemc.StTooBig, fakemc.StInval, fakemc.StUnknown, fakemc.StNotSupported, fakemc.StInternal, fakemc.StTemp,
+		for _, st := range []uint16{fakemc.StInval, fakemc.StUnknown, fakemc.StNotSupported, fakemc.StInternal, fakemc.StTemp,
 			fakemc.StNotFound, fakemc.StExists, fakemc.StNotStored, 0x06, 0x20} {
 			ks = append(ks, faultKind{Name: fmt.Sprintf("status:%#x", st), F: fakemc.Fault{Kind: "status", Status: st}, Class: "status"})
 		}
